@@ -645,7 +645,7 @@ def write_evidence(prop, spec, tier, seed, recs, wall, nviol, known_lines):
                   properties_checked=sum(r.get('properties_checked') or 0 for r in recs),
                   bounds=P.get('bounds', ''), outside_bound=P.get('outside', ''),
                   stubs=P.get('stubs', ''), known_findings=known_lines,
-                  checker_cmd='cbmc q.c --function <entry> --unwind <N> ' + ' '.join(CBMC_FLAGS),
+                  checker_cmd='cbmc q.c --function <entry> --unwind <N> ' + ' '.join(CBMC_FLAGS) + ' [--unwindset ..] [--sat-solver cadical: per obligation, or as the second back end of the portfolio when MiniSat has no verdict after 30-90 s; samples[].sat_backend names the one that answered]',
                   explanation=P.get('explanation', ''),
                   exhaustive=False),
               assumptions=P.get('assumptions', []), wall_s=round(wall, 1), violations=nviol)
